@@ -12,30 +12,37 @@ Definition dec_kind (z : Z) : option pkind :=
   else if z =? 3 then Some PSingleton else None.
 Definition dec_op (t : tree) : option op :=
   match t with
-  | I 0 => Some OWrite | I 1 => Some OCommit | I 2 => Some ORollback | I 3 => Some OIso | I 4 => Some OAutoc
+  | I 0 => Some OWrite | I 1 => Some OCommit | I 2 => Some ORollback
+  | I 3 => Some (OOpts 1 false false) | I 4 => Some (OOpts 2 false false)
   | I 5 => Some OFailStmt | I 6 => Some OBegin | I 7 => Some OFkWrite | I 8 => Some OClose | I 9 => Some ODrop
-  | I 10 => Some OInvalidate | _ => None
+  | I 10 => Some OInvalidate
+  | L [I 11; I lvl; I tok; I oth] =>
+      if (0 <=? lvl) && (lvl <=? 2) then Some (OOpts lvl (negb (tok =? 0)) (negb (oth =? 0))) else None
+  | I 12 => Some ONBegin | I 13 => Some ONCommit | I 14 => Some ONRollback | I 15 => Some ONClose
+  | _ => None
   end.
 
 Definition enc_db (d : db) : tree :=
   L [I (cid d); of_bool (in_txn d); of_bool (dirty d); I (iso d); of_bool (autoc d)].
 
 (* the observations of the successive users, then of one more (empty) checkout *)
-Fixpoint run_obs (reset : rstyle) (kind : pkind) (withlog : bool) (us : list (list op)) (s : st) : list tree :=
+Fixpoint run_obs (reset : rstyle) (kind : pkind) (be : bool) (ei : Z) (withlog : bool) (us : list (list op)) (s : st) : list tree :=
   match us with
   | [] => []
   | u :: r =>
-      let '(d, codes, s1) := user reset kind u s in
-      L [enc_db d; L (map I codes); L (if withlog then map I (log s1) else [])] :: run_obs reset kind withlog r s1
+      let '(d, codes, s1) := user reset kind be ei u s in
+      L [enc_db d; L (map I codes); L (if withlog then map I (log s1) else [])] :: run_obs reset kind be ei withlog r s1
   end.
 
-(* input  L [L [backend; reset; kind]; L users; L faults]   backend 0 = fake DBAPI, 1 = SQLite *)
+(* input  L [L [backend; reset; kind; engine_iso]; L users; L faults]   backend 0 = fake DBAPI, 1 = SQLite *)
 Definition run_case (t : tree) : tree :=
   match t with
-  | L [L [I backend; I rs; I k]; L tus; tf] =>
+  | L [L [I backend; I rs; I k; I ei]; L tus; tf] =>
       match dec_reset rs, dec_kind k, all_some (map (as_list_of dec_op) tus), as_list_of as_Z tf with
       | Some reset, Some kind, Some us, Some fl =>
-          L (run_obs reset kind (backend =? 0) (us ++ [[]]) (init fl))
+          if (0 <=? ei) && (ei <=? 2) then
+            L (run_obs reset kind (backend =? 1) ei (backend =? 0) (us ++ [[]]) (init fl))
+          else bad_input
       | _, _, _, _ => bad_input
       end
   | _ => bad_input
